@@ -579,12 +579,13 @@ structure Inv (s : St) : Prop where
   excl : (s.sp = SPc.holding ∨ s.sp = SPc.notified) → s.w ≠ WPc.locked
   after : (s.sp = SPc.notified ∨ s.sp = SPc.done) → (s.w = WPc.idle ∨ s.w = WPc.exited)
   flagged : s.sp ≠ SPc.start → s.flag = true
+  nogap : s.w ≠ WPc.gap        -- the repaired code has no unlock between the stop check and the wait
 
 theorem inv_step (s s' : St) (a : Act) (h : Inv s) (hs : step s a = some s') : Inv s' := by
   obtain ⟨w, sp, flag⟩ := s
-  obtain ⟨h1, h2, h3⟩ := h
+  obtain ⟨h1, h2, h3, h4⟩ := h
   cases a <;> cases w <;> cases sp <;> cases flag <;>
-    simp [step, workerStep, wakeIfWaiting] at hs h1 h2 h3 <;>
+    simp [step, workerStep, wakeIfWaiting] at hs h1 h2 h3 h4 <;>
     (subst hs; constructor <;> simp)
 
 theorem inv_run (acts : List Act) : ∀ s, Inv s → Inv (run step s acts) := by
